@@ -1,6 +1,6 @@
 // h_par : parallel iteration (rayon feature) against sequential iteration of the same fetcher,
 // for thread pools of several sizes and populations large enough to be split and stolen.
-//   h_par <seed> <worlds>
+//   h_par <seed> <worlds> [grid level]
 mod common;
 use std::sync::Mutex;
 
@@ -55,6 +55,45 @@ impl Rng {
     }
 }
 
+fn add_handlers(world: &mut World) {
+    world.add_handler(|r: Receiver<Go>, f: Fetcher<(EntityId, &K0)>| {
+        let d = r.event.delay;
+        let par: Vec<String> = pool().install(|| f.par_iter().map(|i| { spin(d); i.render() }).collect());
+        let seq: Vec<String> = f.iter().map(|i| i.render()).collect();
+        report("(EntityId,&K0) par_iter", par, seq);
+    });
+    world.add_handler(|r: Receiver<Go>, mut f: Fetcher<(EntityId, &mut K0)>| {
+        let d = r.event.delay;
+        let before: Vec<String> = f.iter_mut().map(|mut i| { i.bump(1); i.render() }).collect();
+        // every item bumped once more in parallel; then compare with a sequential pass
+        let par: Vec<String> = pool().install(|| (&mut f).into_par_iter().map(|mut i| { spin(d); i.bump(1); i.render() }).collect());
+        let expect: Vec<String> = f.iter_mut().map(|i| i.render()).collect();
+        report("(EntityId,&mut K0) par_iter_mut visits", par, expect);
+        let _ = before;
+    });
+    world.add_handler(|r: Receiver<Go>, f: Fetcher<(EntityId, Option<&K1>, With<&K3>)>| {
+        let d = r.event.delay;
+        let par: Vec<String> = pool().install(|| f.par_iter().map(|i| { spin(d); i.render() }).collect());
+        let seq: Vec<String> = f.iter().map(|i| i.render()).collect();
+        report("(EntityId,Option<&K1>,With<&K3>)", par, seq);
+    });
+    world.add_handler(|_: Receiver<Go>, f: Fetcher<With<&K0>>| {
+        let par = pool().install(|| f.par_iter().count());
+        let seq = f.iter().count();
+        report("With<&K0> count", vec![par.to_string()], vec![seq.to_string()]);
+    });
+    world.add_handler(|r: Receiver<Go>, f: Fetcher<(EntityId, Or<&K0, &K1>)>| {
+        let d = r.event.delay;
+        let par: Vec<String> = pool().install(|| f.par_iter().map(|i| { spin(d); i.render() }).collect());
+        let seq: Vec<String> = f.iter().map(|i| i.render()).collect();
+        report("(EntityId,Or<&K0,&K1>)", par, seq);
+    });
+    world.add_handler(|_: Receiver<Go>, f: Fetcher<(EntityId, &K3)>| {
+        let par: Vec<String> = pool().install(|| f.into_par_iter().map(|i| i.render()).collect());
+        report("(EntityId,&K3) into_par_iter: no duplicates", { let mut p = par.clone(); p.sort(); p.dedup(); p }, par);
+    });
+}
+
 fn main() {
     let args: Vec<String> = std::env::args().collect();
     let seed: u64 = args.get(1).and_then(|s| s.parse().ok()).unwrap_or(1);
@@ -62,43 +101,7 @@ fn main() {
     let mut rng = Rng(seed.wrapping_mul(0x9E3779B97F4A7C15) | 1);
     for wi in 0..worlds {
         let mut world = World::new();
-        // handlers
-        world.add_handler(|r: Receiver<Go>, f: Fetcher<(EntityId, &K0)>| {
-            let d = r.event.delay;
-            let par: Vec<String> = pool().install(|| f.par_iter().map(|i| { spin(d); i.render() }).collect());
-            let seq: Vec<String> = f.iter().map(|i| i.render()).collect();
-            report("(EntityId,&K0) par_iter", par, seq);
-        });
-        world.add_handler(|r: Receiver<Go>, mut f: Fetcher<(EntityId, &mut K0)>| {
-            let d = r.event.delay;
-            let before: Vec<String> = f.iter_mut().map(|mut i| { i.bump(1); i.render() }).collect();
-            // every item bumped once more in parallel; then compare with a sequential pass
-            let par: Vec<String> = pool().install(|| (&mut f).into_par_iter().map(|mut i| { spin(d); i.bump(1); i.render() }).collect());
-            let expect: Vec<String> = f.iter_mut().map(|i| i.render()).collect();
-            report("(EntityId,&mut K0) par_iter_mut visits", par, expect);
-            let _ = before;
-        });
-        world.add_handler(|r: Receiver<Go>, f: Fetcher<(EntityId, Option<&K1>, With<&K3>)>| {
-            let d = r.event.delay;
-            let par: Vec<String> = pool().install(|| f.par_iter().map(|i| { spin(d); i.render() }).collect());
-            let seq: Vec<String> = f.iter().map(|i| i.render()).collect();
-            report("(EntityId,Option<&K1>,With<&K3>)", par, seq);
-        });
-        world.add_handler(|_: Receiver<Go>, f: Fetcher<With<&K0>>| {
-            let par = pool().install(|| f.par_iter().count());
-            let seq = f.iter().count();
-            report("With<&K0> count", vec![par.to_string()], vec![seq.to_string()]);
-        });
-        world.add_handler(|r: Receiver<Go>, f: Fetcher<(EntityId, Or<&K0, &K1>)>| {
-            let d = r.event.delay;
-            let par: Vec<String> = pool().install(|| f.par_iter().map(|i| { spin(d); i.render() }).collect());
-            let seq: Vec<String> = f.iter().map(|i| i.render()).collect();
-            report("(EntityId,Or<&K0,&K1>)", par, seq);
-        });
-        world.add_handler(|_: Receiver<Go>, f: Fetcher<(EntityId, &K3)>| {
-            let par: Vec<String> = pool().install(|| f.into_par_iter().map(|i| i.render()).collect());
-            report("(EntityId,&K3) into_par_iter: no duplicates", { let mut p = par.clone(); p.sort(); p.dedup(); p }, par);
-        });
+        add_handlers(&mut world);
         // population: sizes chosen so that some archetypes are tiny and some large
         let n = match wi % 4 { 0 => rng.below(40), 1 => 200 + rng.below(800), 2 => 3000 + rng.below(3000), _ => rng.below(300) };
         let mut ids = vec![];
@@ -132,11 +135,40 @@ fn main() {
             }
         }
     }
+    // grid: three archetypes that all match `&K0` ({K0}, {K0,K1}, {K0,K3}) with every combination of populations
+    // from a small set around the sizes at which work gets split, so that split points fall on every kind of
+    // position (inside an archetype, on its first row, on the same row index in two archetypes, ...)
+    let level: u64 = args.get(3).and_then(|s| s.parse().ok()).unwrap_or(1);
+    let sizes: &[u64] = if level >= 2 { &[1, 2, 30, 33, 60, 63, 64, 65, 90, 100, 127, 128, 150, 200] } else { &[1, 30, 60, 64, 90, 128] };
+    let mut grid_worlds = 0u64;
+    for &a in sizes {
+        for &b in sizes {
+            for &c in sizes {
+                let mut world = World::new();
+                add_handlers(&mut world);
+                for (n, kind) in [(a, 0), (b, 1), (c, 2)] {
+                    for _ in 0..n {
+                        let e = world.spawn();
+                        world.insert(e, K0::mk(fresh_serial(), 0));
+                        if kind == 1 { world.insert(e, K1::mk(fresh_serial(), 0)); }
+                        if kind == 2 { world.insert(e, K3::mk(fresh_serial(), 0)); }
+                    }
+                }
+                grid_worlds += 1;
+                for threads in [2usize, 4, 8] {
+                    let p = evenio::rayon::ThreadPoolBuilder::new().num_threads(threads).build().unwrap();
+                    *POOL.lock().unwrap() = Some(std::sync::Arc::new(p));
+                    world.send(Go { delay: 0 });
+                }
+                if OUT.lock().unwrap().len() > 20 { break; }
+            }
+        }
+    }
     let out = OUT.lock().unwrap();
     for l in out.iter().take(20) {
         println!("{l}");
     }
-    println!("PAR worlds={worlds} checks={} mismatches={}", CHECKS.lock().unwrap(), out.len());
+    println!("PAR worlds={worlds} grid={grid_worlds} checks={} mismatches={}", CHECKS.lock().unwrap(), out.len());
     if !out.is_empty() {
         std::process::exit(1);
     }
